@@ -632,7 +632,16 @@ impl Compiler {
                 self.push_op(Debug, &[expression_register]);
                 self.push_var_u32(u32::from(*expression_string));
 
-                expression_result
+                match ctx.result_register {
+                    ResultRegister::None => {
+                        // The register was only needed for the debug op
+                        if expression_result.is_temporary {
+                            self.pop_register()?;
+                        }
+                        CompileNodeOutput::none()
+                    }
+                    _ => expression_result,
+                }
             }
             Node::Meta(_, _) => {
                 // Meta nodes are currently only compiled in the context of an export assignment,
